@@ -147,7 +147,7 @@ theorem fallback_pop_stores_in_entry (o : Ops) (s : MSt) (key : Str) (pieces : L
     (hrel : canBeRelativeUri.contains key = false)
     (hk : (key == S "category" || key == S "tags" || key == S "itunes_keywords") = false)
     (hfirst : e.depths.find? (·.1 == key) = none) :
-    (pop o s key).c.entries = { d := fset e.d key (.s (o.fix (stripS pieces.flatten))),
+    (pop o s key).c.entries = { d := fset e.d key (.s (o.fix (o.decodeEnt (S "xml") (stripS pieces.flatten)))),
                                 depths := (e.depths.filter (·.1 != key)) ++ [(key, s.c.depth)] } :: es ∧
     (pop o s key).stack = rest ∧ (pop o s key).c.feed = s.c.feed := by
   unfold pop
@@ -160,7 +160,7 @@ theorem fallback_pop_stores_in_feed (o : Ops) (s : MSt) (key : Str) (pieces : Li
     (hst : s.stack = ⟨key, true, pieces⟩ :: rest) (hin : s.c.inentry = false) (hfeed : s.c.infeed = true)
     (hrel : canBeRelativeUri.contains key = false)
     (hk : (key == S "category" || key == S "tags" || key == S "itunes_keywords") = false) :
-    (pop o s key).c.feed = fset s.c.feed key (.s (o.fix (stripS pieces.flatten))) ∧
+    (pop o s key).c.feed = fset s.c.feed key (.s (o.fix (o.decodeEnt (S "xml") (stripS pieces.flatten)))) ∧
     (pop o s key).stack = rest ∧ (pop o s key).c.entries = s.c.entries := by
   unfold pop
   simp only [hst, bne_self_eq_false, Bool.false_eq_true, ↓reduceIte, Bool.not_true, hrel, Bool.false_and, hk, hin, hfeed]
